@@ -7,6 +7,7 @@ instances with a semantic key (function : normalised base : access kind).
 from __future__ import annotations
 
 import ast
+import re
 from dataclasses import dataclass
 from typing import Iterator, Optional
 
@@ -20,6 +21,7 @@ NAME_TAKERS = {"Column", "Table", "Schema", "Path", "SqlParseColumn", "SqlFluffC
 SEQ_SOURCES = {"segments", "tokens"}
 SEQ_CALLS = {"get_children", "list_child_segments", "get_identifiers", "get_sublists", "get_parameters", "recursive_crawl", "list_subqueries", "list_join_clause", "get_subquery_parentheses"}
 NONEMPTY_CALLS = {"split", "rsplit", "splitlines", "partition", "rpartition"}
+_FORMAT_SPEC = re.compile(r"%(?:\([^)]*\))?[#0\- +]*(?:\*|\d+)?(?:\.(?:\*|\d+))?[hlL]?([diouxXeEfFgGcrsa%])")
 
 
 @dataclass
@@ -49,7 +51,8 @@ def norm_base(prog: Prog, fn: Fn, e: ast.AST, depth: int = 0) -> str:
     if isinstance(e, ast.Subscript):
         return norm_base(prog, fn, e.value, depth + 1) + "[]"
     if isinstance(e, ast.Name) and depth < 3:
-        defs = [node for kind, node in prog.local_defs(fn, e.id) if kind in ("assign", "walrus", "annassign") and getattr(node, "value", None) is not None]
+        # the definitions that reach this use (a name re-bound later in the function does not change what is subscripted here)
+        defs = [node for kind, node in flow(prog, fn).reaching_defs(e, e.id) if kind in ("assign", "walrus", "annassign") and getattr(node, "value", None) is not None]
         if len(defs) == 1:
             return norm_base(prog, fn, defs[0].value, depth + 1)
         if len(defs) > 1:
@@ -279,6 +282,33 @@ def scan_function(prog: Prog, fn: Fn) -> Iterator[Site]:
                 elif _in_try_catching(prog, n, ("ValueError",)):
                     site.discharged = "inside try/except ValueError"
                 yield site
+        # ---- %-formatting: the number of conversions is fixed by the format literal; a format that is data (SQL text echoed in a
+        #      message) fails on any '%' it happens to contain ------------------------------------------------------------------
+        if isinstance(n, ast.BinOp) and isinstance(n.op, ast.Mod):
+            fmt = n.left.value if isinstance(n.left, ast.Constant) and isinstance(n.left.value, str) else None
+            if fmt is not None:
+                specs = [m_ for m_ in _FORMAT_SPEC.finditer(fmt)]
+                bad = "%" in _FORMAT_SPEC.sub("", fmt)
+                want = sum(1 for m_ in specs if m_.group(1) != "%") + sum(m_.group(0).count("*") for m_ in specs)
+                named = any("(" in m_.group(0) for m_ in specs)
+                have = len(n.right.elts) if isinstance(n.right, ast.Tuple) and not any(isinstance(e_, ast.Starred) for e_ in n.right.elts) else None
+                site = Site(fn, n, "literal", "format", f"`{u(n)[:60]}`: {want} conversion(s) in the format literal")
+                if not bad and not named and (have == want or (have is None and want == 1 and not isinstance(n.right, (ast.Tuple, ast.Starred))
+                                                              and not any(a.kind == "tuple" for a in prog.infer(n.right, fn).alts()))):
+                    site.discharged = "as many arguments as conversions in the literal"
+                elif _in_try_catching(prog, n, ("TypeError", "ValueError")):
+                    site.discharged = "inside try/except TypeError / ValueError"
+                yield site
+            else:
+                lt = prog.infer(n.left, fn)
+                vararg = fn.node.args.vararg.arg if getattr(fn.node.args, "vararg", None) is not None else None
+                texty = any(a.kind == "str" for a in lt.alts()) or isinstance(n.left, ast.JoinedStr) or (isinstance(n.right, ast.Name) and n.right.id == vararg) \
+                    or (lt.kind == "unknown" and isinstance(n.right, ast.Tuple))
+                if texty:
+                    site = Site(fn, n, norm_base(prog, fn, n.left), "format", f"`{u(n)[:60]}`: the format string is data, any '%' in it is read as a conversion")
+                    if _in_try_catching(prog, n, ("TypeError", "ValueError")):
+                        site.discharged = "inside try/except TypeError / ValueError"
+                    yield site
         # ---- next() without default -----------------------------------------------------------
         if isinstance(n, ast.Call) and isinstance(n.func, ast.Name) and n.func.id == "next" and len(n.args) == 1:
             site = Site(fn, n, norm_base(prog, fn, n.args[0]), "next", f"`{u(n)[:60]}` without default")
